@@ -146,11 +146,11 @@ theorem hop_leaf (vf : Err → Str) (id : Ident) (k : LeafKind) (path : List Nat
       leafStable, leafText] at h ⊢
     all_goals (first | done | exact h | simp_all)
 
-theorem hop_barrier (vf : Err → Str) (id : Ident) (m : RStr) (hd : Err) (path : List Nat)
+theorem hop_barrier (vf : Err → Str) (id : Ident) (m : BarrierMsg) (hd : Err) (path : List Nat)
     (hc : ∃ c', decode Full (1 :: path) (encode Full vf hd) = some c' ∧ shape vf c' = shape vf hd ∧ stable c' = true) :
     ∃ e', decode Full path (encode Full vf (.barrier id m hd)) = some e' ∧ shape vf e' = shape vf (.barrier id m hd) ∧ stable e' = true := by
   obtain ⟨c', hd', hs, hst⟩ := hc
-  refine ⟨.barrier path m c', ?_, ?_, ?_⟩
+  refine ⟨.barrier path ⟨m.smsg, if layerDetails Full vf (.barrier id m hd) = [] then none else some (layerDetails Full vf (.barrier id m hd))⟩ c', ?_, ?_, ?_⟩
   · simp [encode, decode, typeKey, Full_knows, detOf, buildLeaf, decodeHid, decodeList, hd']
   · simp [shape, label, storedMark, isSigOf, isMultiNode, stSigOf, annOf, safeOf, layerStackStr, isStackKey, layerHint, layerDetail, layerIssueLink, layerKeys, layerDomain, layerTags, layerHTTP, layerGrpc, isAssertionFailure, isUnimplementedError, isWithIssueLink, timeoutLayer, layerDetails, Err.opaqueDet, text] <;> try rfl
   · simp [stable, hst]
